@@ -411,3 +411,53 @@ func Union(sets ...EdgeSet) EdgeSet {
 	}
 	return out
 }
+
+// MustPassBetween reports whether every path from the instruction after `from` to `target`
+// executes an instruction satisfying pred. If target is not reachable from `from` it holds
+// vacuously.
+func MustPassBetween(fn *ssa.Function, from, target ssa.Instruction, pred func(ssa.Instruction) bool) bool {
+	type pos struct {
+		b *ssa.BasicBlock
+		i int
+	}
+	start := pos{from.Block(), 0}
+	for i, in := range from.Block().Instrs {
+		if in == from {
+			start.i = i + 1
+		}
+	}
+	seen := map[*ssa.BasicBlock]bool{}
+	queue := []pos{start}
+	first := true
+	for len(queue) > 0 {
+		cur := queue[0]
+		queue = queue[1:]
+		if !first && seen[cur.b] {
+			continue
+		}
+		if !first {
+			seen[cur.b] = true
+		}
+		first = false
+		hit := false
+		for i := cur.i; i < len(cur.b.Instrs); i++ {
+			in := cur.b.Instrs[i]
+			if in == target {
+				return false
+			}
+			if pred(in) {
+				hit = true
+				break
+			}
+		}
+		if hit {
+			continue
+		}
+		for _, s := range cur.b.Succs {
+			if !seen[s] {
+				queue = append(queue, pos{s, 0})
+			}
+		}
+	}
+	return true
+}
